@@ -3,6 +3,16 @@ use thiserror::Error as ThisError;
 
 #[derive(Serialize, Deserialize, PartialEq, Eq, Clone, ThisError, Debug)]
 pub enum HttpError {
+    #[error("URL parse error: {0}")]
+    Url(String),
+    #[error("IO error: {0}")]
+    Io(String),
+    #[error("Timeout")]
+    Timeout,
+    // The variants that never cross the bridge come last: serde's derived `Serialize`
+    // numbers variants by declaration position, counting skipped ones, while `Deserialize`
+    // (and the generated foreign types) number only the non-skipped ones. Skipped variants
+    // declared first would shift every variant index `Serialize` writes.
     #[error("HTTP error {code}: {message}")]
     #[serde(skip)]
     Http {
@@ -13,12 +23,6 @@ pub enum HttpError {
     #[error("JSON serialisation error: {0}")]
     #[serde(skip)]
     Json(String),
-    #[error("URL parse error: {0}")]
-    Url(String),
-    #[error("IO error: {0}")]
-    Io(String),
-    #[error("Timeout")]
-    Timeout,
 }
 
 impl From<http_types::Error> for HttpError {
